@@ -109,6 +109,10 @@ def judge(ctx, c, rr):
         ctx.fail('make-private-accepts-eval', 'make_private accepted a model in eval mode', c)
     if rr['mp_foreign'] == 'ok':
         ctx.fail('make-private-accepts-foreign-optimizer', 'make_private accepted an optimizer holding a parameter that is not the model\'s', c)
+    if rr.get('mp_prewrapped_eval') == 'ok':
+        ctx.fail('make-private-accepts-eval', 'make_private accepted an already wrapped module in eval mode', c)
+    if rr.get('mp_prewrapped') == 'ok' and rr['mp'] != 'ok':
+        ctx.fail('make-private-accepts-invalid-prewrapped', 'make_private accepted an already wrapped GradSampleModule whose module it refuses when passed unwrapped (%s)' % rr['mp'], c)
     if rr['mp'] == 'ok' and not (accepted and rr['gsm_errors'] == 0):
         ctx.fail('make-private-accepts-invalid', 'make_private accepted a model that validate / GradSampleModule.validate reject (%s, %s)' % (rr['validate'], rr['gsm_errors']), c)
     # C. fix
